@@ -198,7 +198,7 @@ def max_depth_for(rad):
 
 
 FAMILIES = ["uniform", "cap", "npole", "spole", "seam", "duplicates", "self", "edges", "deepedge", "tiny",
-            "antipodal", "radius0", "perpoint", "threshold", "dtypes"]
+            "antipodal", "radius0", "perpoint", "threshold", "dtypes", "reprows"]
 LAYOUTS = ["plain", "swapped", "strided", "negstride", "list"]
 
 
@@ -249,8 +249,39 @@ def find_edge(r, depth):
     raise RuntimeError("no triangle edge found at depth %d" % depth)
 
 
+def repeat_rows(r, pts1, rad):
+    """runs of bit-identical consecutive first-set rows, each row of a run with its own radius
+    (clearly smaller / equal / clearly larger than the previous row's, exactly 0 now and then):
+    state carried from one row to the next must not leak"""
+    base = rad if isinstance(rad, list) else [rad] * len(pts1)
+    pts, rads = [], []
+    for p_, rd in zip(pts1, base):
+        k = r.choice([1, 2, 2, 3, 4])
+        mults = [r.choice([0.0, 0.05, 0.3, 1.0, 1.0, 3.0, 8.0]) for _ in range(k)]
+        order = r.choice(["up", "down", "any"])
+        if order == "up":
+            mults.sort()
+        elif order == "down":
+            mults.sort(reverse=True)
+        for m in mults:
+            pts.append(p_)
+            rads.append(min(180.0, max(rd, 1e-6) * m))
+        if len(pts) >= 24:
+            break
+    return pts, rads
+
+
 def gen_problem(r, fam, big=False):
     """returns dict(ra1, dec1, ra2, dec2, radius (float | list), scale)"""
+    if fam == "reprows":
+        p = gen_problem(r, r.choice(["cap", "cap", "seam", "npole", "duplicates", "uniform", "dtypes"]), big)
+        p.pop("fixdepth", None)
+        pts, rads = repeat_rows(r, list(zip(p["ra1"], p["dec1"])), p["radius"])
+        p["ra1"], p["dec1"], p["radius"] = [a for a, _ in pts], [d for _, d in pts], rads
+        if len(rads) == 1:
+            p["radius"] = rads[0]
+        p["scale"] = max(rads)
+        return p
     n1 = r.randrange(1, 14 if not big else 26)
     n2 = r.randrange(1, 50 if not big else 121)
     pts1, pts2, rad = [], [], None
@@ -406,6 +437,12 @@ def gen_problem(r, fam, big=False):
             pts2.append((a, d + r.choice([-1, 1]) * (rad + delta)))
     else:
         raise ValueError(fam)
+    if fam in ("duplicates", "perpoint", "self") and r.random() < 0.5 and fam != "self":
+        pts1, rad = repeat_rows(r, pts1, rad)
+        if len(rad) == 1:
+            rad = rad[0]
+    if fam == "radius0" and r.random() < 0.3:
+        rad = -0.0                      # exactly zero, with the other sign
     scale = max(rad) if isinstance(rad, list) else rad
     out = {"ra1": [p[0] for p in pts1], "dec1": [p[1] for p in pts1],
            "ra2": [p[0] for p in pts2], "dec2": [p[1] for p in pts2], "radius": rad, "scale": scale}
@@ -780,7 +817,7 @@ class Match(Base):
     name = "match"
 
     def cases(self, ctx, round=0):
-        cs = self.problems(ctx, round, 14 if round == 0 else 6, 80 if round == 0 else 30)
+        cs = self.problems(ctx, round, 14 if round == 0 else 6, 60 if round == 0 else 30)
         if round == 0:
             # corners: empty sets, single points, scalars
             cs.append(dict(ra1=[], dec1=[], ra2=[1.0, 2.0], dec2=[3.0, 4.0], radius=1.0, scale=1.0, depth=7,
@@ -897,6 +934,16 @@ class Variants(Base):
             "; ".join(c_rows(l, E) for l in lists))
 
 
+_READERS = {}
+
+
+def _reader(depth):
+    import esutil.htm as htm
+    if depth not in _READERS:
+        _READERS[depth] = htm.HTM(depth)
+    return _READERS[depth]
+
+
 class FileRT(Base):
     """file= output read back with read_pairs against the in-memory call"""
     name = "file"
@@ -915,13 +962,19 @@ class FileRT(Base):
             # documented alias of read_pairs and must return the same table
             fnarg = pathlib.Path(fn) if (len(c["ra1"]) + len(c["ra2"])) % 2 else fn
             mem = core.guarded(lambda: _rows(run_match(c)))
+            if len(c["ra2"]) >= 2 and not c.get("tile"):
+                # history: the same path first holds the pairs of the problem with second-set points 0 and 1
+                # exchanged (same number of rows, normally the same byte size) and is read once
+                c2 = dict(c, ra2=[c["ra2"][1], c["ra2"][0]] + list(c["ra2"][2:]), dec2=[c["dec2"][1], c["dec2"][0]] + list(c["dec2"][2:]))
+                c2.pop("forms", None)
+                core.guarded(lambda: (run_match(c2, file=fnarg), htm.read_pairs(fnarg), htm.HTM(c["depth"]).read(fnarg)))
             cnt = core.guarded(lambda: int(run_match(c, file=fnarg)))
             size = os.path.getsize(fn) if os.path.exists(fn) else -1
 
             def rd():
                 import numpy as np
                 t = htm.read_pairs(fnarg)
-                t2 = htm.HTM(c["depth"]).read(fnarg, verbose=False)
+                t2 = _reader(c["depth"]).read(fnarg, verbose=False)     # one HTM object reads the files of all cases
                 if t.dtype != t2.dtype or t.shape != t2.shape or not np.array_equal(t, t2):
                     raise RuntimeError("HTM.read and read_pairs differ")
                 return [[int(a), int(b), float(x)] for a, b, x in zip(t["i1"], t["i2"], t["d12"])]
@@ -957,7 +1010,7 @@ class FileLong(Entry):
         if round:
             return []
         r = ctx.rng
-        sizes = [(129, 128)] if ctx.quick() else [(129, 128), (182, 181), (257, 256), (320, 313)]
+        sizes = [(129, 128)] if ctx.quick() else [(129, 128), (182, 181), (257, 256)]
         cs = []
         for n1, n2 in sizes:
             ra0, dec0 = r.uniform(20, 340), r.uniform(-50, 50)
@@ -1089,6 +1142,144 @@ class Long(Base):
         return Match.term(self, c, out)
 
 
+class Sequence(Base):
+    """history: several calls in ONE process on ONE HTM object (kind htm) or ONE Matcher object (kind
+    matcher), passing the SAME argument objects whose contents are changed in place between the
+    calls (numpy buffers or python lists), then different objects with equal contents, other
+    option values, and the first contents again.  All steps have the same sizes and the same first
+    and last second-set point, so that a cache keyed on object identity, sizes or end points
+    collides.  Every step is judged as a call of its own (model + verified checker) and against
+    the same call made alone on fresh objects."""
+    name = "sequence"
+
+    def cases(self, ctx, round=0):
+        r = ctx.rng
+        cs = []
+        fams = ["cap", "duplicates", "perpoint", "reprows", "seam", "npole", "dtypes", "cap", "self", "tiny", "reprows", "perpoint"]
+        for n in range(ctx.n(12, 48) if round == 0 else 4):
+            fam = fams[n % len(fams)]
+            p0 = gen_problem(r, fam)
+            p0.pop("fixdepth", None)
+            p0.pop("formkinds", None)
+            p0["ra1"], p0["dec1"] = p0["ra1"][:10], p0["dec1"][:10]
+            p0["ra2"], p0["dec2"] = p0["ra2"][:24], p0["dec2"][:24]
+            if isinstance(p0["radius"], list):
+                p0["radius"] = p0["radius"][:len(p0["ra1"])]
+            n1, n2 = len(p0["ra1"]), len(p0["ra2"])
+            sc = max(rad_list(p0) + [1e-6])
+            p0["scale"] = sc
+            depth = r.choice([r.randrange(1, max_depth_for(sc * 8) + 1), max_depth_for(sc * 8)])
+            k0 = r.choice([0, -1, 1, 2, n2 + 3])
+
+            def step(ra1, dec1, ra2, dec2, radius, k, **kw):
+                d = {"ra1": list(ra1), "dec1": list(dec1), "ra2": list(ra2), "dec2": list(dec2),
+                     "radius": list(radius) if isinstance(radius, list) else radius, "maxmatch": k, "depth": depth,
+                     "scale": max((radius if isinstance(radius, list) else [radius]) + [1e-6]), "family": "seq:" + fam}
+                d.update(kw)
+                return d
+            # B: the second set moved in place, first and last point kept
+            ra2b, dec2b = list(p0["ra2"]), list(p0["dec2"])
+            for j in range(1, max(1, n2 - 1)):
+                if r.random() < 0.7:
+                    ra2b[j], dec2b[j] = _norm(ra2b[j] + r.uniform(-2, 2) * sc, dec2b[j] + r.uniform(-2, 2) * sc)
+            mid = list(range(1, max(1, n2 - 1)))
+            r.shuffle(mid)
+            perm = [0] + mid + ([n2 - 1] if n2 > 1 else [])
+            ra2b, dec2b = [ra2b[j] for j in perm], [dec2b[j] for j in perm]
+            # C: the first set reversed, per-point radii reversed and rescaled (a scalar radius is rescaled)
+            ra1c, dec1c = p0["ra1"][::-1], p0["dec1"][::-1]
+            if isinstance(p0["radius"], list):
+                radc = [min(180.0, x * r.choice([0.0, 0.3, 1.0, 2.5])) for x in p0["radius"][::-1]]
+            else:
+                radc = min(180.0, p0["radius"] * r.choice([0.3, 2.5]))
+            kc = r.choice([0, 1, 2, 3])
+            steps = [
+                step(p0["ra1"], p0["dec1"], p0["ra2"], p0["dec2"], p0["radius"], k0),
+                step(p0["ra1"], p0["dec1"], ra2b, dec2b, p0["radius"], k0),
+                step(ra1c, dec1c, ra2b, dec2b, radc, k0),
+                step(ra1c, dec1c, ra2b, dec2b, radc, k0, newobj=True),
+                step(ra1c, dec1c, ra2b, dec2b, radc, kc),
+                step(p0["ra1"], p0["dec1"], p0["ra2"], p0["dec2"], p0["radius"], k0),
+            ]
+            cs.append({"steps": steps, "kind": r.choice(["htm", "htm", "matcher"]), "buf": r.choice(["array", "array", "list"]),
+                       "depth": depth, "family": "seq:" + fam, "maxmatch": k0})
+        for c in cs:
+            oracle_fill(c["steps"], ctx.work)
+        self.ctx = ctx
+        return cs
+
+    def impl(self, c):
+        import numpy as np
+        import esutil.htm as htm
+        st0 = c["steps"][0]
+        aslist = c["buf"] == "list"
+
+        def mkbuf(x):
+            return [float(t) for t in x] if aslist else np.array(x, dtype="f8")
+
+        def fill(buf, x):
+            if aslist:
+                buf[:] = [float(t) for t in x]
+            else:
+                buf[...] = np.array(x, dtype="f8")
+        bufs = {k: mkbuf(st0[k]) for k in ("ra1", "dec1", "ra2", "dec2")}
+        radbuf = mkbuf(st0["radius"]) if isinstance(st0["radius"], list) else None
+        h = htm.HTM(c["depth"])
+        m, mkey = None, None
+        outs = []
+        for st in c["steps"]:
+            if st.get("newobj"):
+                args = {k: mkbuf(st[k]) for k in ("ra1", "dec1", "ra2", "dec2")}
+                rad = mkbuf(st["radius"]) if isinstance(st["radius"], list) else float(st["radius"])
+            else:
+                for k in ("ra1", "dec1", "ra2", "dec2"):
+                    fill(bufs[k], st[k])
+                if radbuf is not None and isinstance(st["radius"], list):
+                    fill(radbuf, st["radius"])
+                    rad = radbuf
+                else:
+                    rad = st["radius"] if not isinstance(st["radius"], list) else mkbuf(st["radius"])
+                args = bufs
+
+            def call():
+                nonlocal m, mkey
+                if c["kind"] == "htm":
+                    return _rows(h.match(args["ra1"], args["dec1"], args["ra2"], args["dec2"], rad, maxmatch=st["maxmatch"]))
+                key = (tuple(st["ra2"]), tuple(st["dec2"]))
+                if m is None or key != mkey:        # the Matcher is rebuilt (from the same buffer objects) when the second set changed
+                    m, mkey = htm.Matcher(c["depth"], args["ra2"], args["dec2"]), key
+                return _rows(m.match(args["ra1"], args["dec1"], rad, maxmatch=st["maxmatch"]))
+            hist = core.guarded(call)
+
+            def alone():
+                a = {k: np.array(st[k], dtype="f8") for k in ("ra1", "dec1", "ra2", "dec2")}
+                rd = np.array(st["radius"], dtype="f8") if isinstance(st["radius"], list) else float(st["radius"])
+                return _rows(htm.HTM(c["depth"]).match(a["ra1"], a["dec1"], a["ra2"], a["dec2"], rd, maxmatch=st["maxmatch"]))
+            fresh = core.guarded(alone)
+            root = os.environ.get("VERIF_IMPL", "")
+            try:
+                tri, cover, dupfree, ntri = index_oracles(st, c["depth"], root)
+                dcode, err = code_distances(st), None
+            except Exception as e:  # noqa
+                tri, cover, dupfree, ntri, dcode, err = [], [], False, 0, [], "%s: %s" % (type(e).__name__, e)
+            outs.append({"res": hist, "fresh": fresh, "tri": tri, "cover": cover, "dupfree": dupfree, "ntri": ntri,
+                         "dcode": dcode, "oracle_error": err})
+        return {"steps": outs}
+
+    def term(self, c, out):
+        ts = []
+        for st, o in zip(c["steps"], out["steps"]):
+            ts.append(Match.term(self, st, o))
+            ts.append(Variants.term(self, st, {"outs": [o["res"], o["fresh"]]}))
+        return "vseq [%s]" % "; ".join("(%s)" % t for t in ts)
+
+    def nontrivial(self, c, out):
+        return any(Base.nontrivial(self, st, None) for st in c["steps"])
+
+    def family(self, c):
+        return c.get("family", self.name)
+
+
 class Cover(Base):
     """run-time monitor of hypothesis H_cover (real intersect / lookup_id against true separations)"""
     name = "cover_contract"
@@ -1158,7 +1349,7 @@ class Reject(Entry):
         return False
 
 
-ENTRIES = [Match(), Variants(), FileRT(), FileLong(), Long(), Cover(), Reject()]
+ENTRIES = [Match(), Sequence(), Variants(), FileRT(), FileLong(), Long(), Cover(), Reject()]
 
 
 # ----------------------------------------------------------------------------
@@ -1213,7 +1404,7 @@ def certify(ctx, replay=None):
     else:
         problems = [c for c in corpus_all("sepcert")]
         for fam in FAMILIES:
-            for _ in range(ctx.n(1, 6)):
+            for _ in range(ctx.n(1, 4)):
                 p = gen_problem(r, fam)
                 p.update(gen_config(r, p, fam))
                 problems.append(p)
@@ -1227,7 +1418,7 @@ def certify(ctx, replay=None):
             ctx.violation("sepcert: a 180-degree match raised %s" % type(e).__name__,
                           {"kind": "failing-input", "entry": "sepcert", "case": c, "error": str(e)}, found_input=True)
             continue
-        pairs = c.get("pairs") or cert_pairs(r, c, D, 12 if c.get("family", "").startswith("corpus") or replay is not None else ctx.n(3, 5))
+        pairs = c.get("pairs") or cert_pairs(r, c, D, 12 if c.get("family", "").startswith("corpus") or replay is not None else ctx.n(2, 5))
         for (i, j) in pairs:
             d = dcode[i][j]
             Dq = Fraction(D[i][j])
